@@ -1233,6 +1233,7 @@ def observe_tree(t, ch):
     o.add("names of user-named internal nodes", lambda: [[tips, n.name, bool(n.name_loaded)] for tips, n in _clades(t) if n.children and n.parent is not None], tol=_user_names_kept)
     o.add("edge lengths by clade", lambda: [[tips, n.length] for tips, n in _clades(t) if n.parent is not None])
     if ch != "newick":
+        o.add("root length", lambda: t.length)
         o.add("other edge params by clade", lambda: [[tips, sorted((str(k), plain(v)) for k, v in n.params.items() if v is not None and k != "length")] for tips, n in _clades(t)])
     return o
 
@@ -1274,6 +1275,12 @@ def check_tree_state(t, init, hist, acc):
     case = {"part": "trees", "init": tg.to_jsonable(init), "history": hist}
     klass = tree_class(model, hist)
     check_roundtrips(acc, "PhyloNode", klass, t, observe_tree, case, nontrivial=len(tg.tips(model)) >= 3)
+    if len(hist) <= 1:
+        # the same tree with values on the root node itself (a stem length, a calibration)
+        tr = t.deepcopy()
+        tr.length = 0.5
+        tr.params["calibration"] = [1, 2]
+        check_roundtrips(acc, "PhyloNode", klass + "; root node carries a length and a parameter", tr, observe_tree, dict(case, root_params=True), nontrivial=len(tg.tips(model)) >= 3)
     # newick text as a serialisation channel of its own
     from cogent3 import make_tree
 
